@@ -551,7 +551,7 @@ func (s *c13state) explore(layer string, tokensAt func(depth int) []string, allo
 			fmt.Fprintf(os.Stderr, "%s depth %d: level %d, next(in-proc) %d, child jobs %d, evals %d, t=%.1fs\n", layer, depth, len(level), len(next), len(jobs), r.Evaluations, time.Since(c13t0).Seconds())
 		}
 		if len(jobs) > 0 {
-			const batch = 2000
+			const batch = 500
 			for b := 0; b < len(jobs); b += batch {
 				e := min(b+batch, len(jobs))
 				out, err := c13runChild(jobs[b:e])
@@ -597,14 +597,19 @@ func TestVerif_C13(t *testing.T) {
 			if p.Risk {
 				j := c13job{In: p.In, Gen: p.Gen, Size: p.Size}
 				j.Mask[p.Fn] = true
-				out, err := c13runChild([]c13job{j})
+				out := make([]c13jobRes, 1)
+				dj, _, fatal, err := c13spawn([]c13job{j}, out) // alone in a fresh child
 				if err != nil {
 					panic(err)
 				}
-				if out[0].res[p.Fn] == nil {
+				res := out[0].res[p.Fn]
+				if dj >= 0 {
+					res = &c13res{Out: "crash", Detail: fatal}
+				}
+				if res == nil {
 					panic("replay: child gave no result")
 				}
-				s.judge(p.Fn, p.In, p.Gen, p.Size, true, out[0].res[p.Fn])
+				s.judge(p.Fn, p.In, p.Gen, p.Size, true, res)
 			} else {
 				res := c13eval(p.Fn, p.In, p.Size)
 				s.judge(p.Fn, p.In, "", p.Size, false, &res)
@@ -622,7 +627,7 @@ func TestVerif_C13(t *testing.T) {
 		r.Bounds["raw_tokens_max"] = rawDepth
 		r.Bounds["line_tokens_max"] = lineDepth
 		r.Bounds["line_full_alphabet_up_to_depth"] = lineFullDepth
-		r.Bounds["line_tokens_max_for_2^30"] = hugeLineDepth
+		r.Bounds["line_tokens_max_for_2^30"] = hugeLineDepth // one level deeper as a chunk header ';2^30'
 		r.Bounds["child_address_space_limit"] = c13asLimit
 		r.Rule = "layer raw: every sequence of <= raw_tokens_max tokens over {17 type bytes, unknown type 'X', digits 0 1 7, lengths -1 -2 minInt64 maxInt64 10^20-1 2^30 65536 ?, CRLF, CR, LF, 'ab'} + EOF; layer line: every sequence of <= line_tokens_max complete header lines {17 type bytes} x {'' 0 1 2 - -0 -1 -2 ? a 65536 2^30 2^62 2^63-1 -2^63 10^20-1} x CRLF (a few with bare LF) and payload pieces (beyond line_full_alphabet_up_to_depth a reduced alphabet {+ : $ * % | ; .} x {'' 0 1 -2 ? 65536 2^62 2^63-1}; quick: {+ $ * % ; .} x {'' 1 -2 ? 65536 2^63-1} and only after prefixes that did not need the child); the 2^30 token (1 GiB allocations are slow even in the child) only at the positions given in bounds; prefixes are extended only while the decoder read past the end of the prefix (and did not already violate); each input through readNextMessage and streamTo with recover, heap bytes allocated during the call measured (runtime/metrics) and required <= 1MiB + 64*len(input); inputs with a >= 8 digit length after a length-carrying type byte run in a child process under RLIMIT_AS 4GiB (a fatal error of the child, confirmed in a fresh child, is a violation); plus deeply nested arrays in the child. non-trivial = input on which a decoder wanted more bytes or that needed the child"
 		r.Assume("allocation is measured as the growth of /gc/heap/allocs:bytes around the call (large objects are accounted immediately; small-object accounting may lag by at most a span per size class, far below the 1 MiB slack)")
@@ -673,8 +678,11 @@ func TestVerif_C13(t *testing.T) {
 			}
 			return lineReduced
 		}, func(prefix []byte, tok string, depth int) bool {
-			if strings.Contains(tok, "1073741824") && c13isLenType(tok[0]) && depth > hugeLineDepth {
-				return false
+			if strings.Contains(tok, "1073741824") && depth > hugeLineDepth {
+				// 1 GiB allocations are slow even in the child: deeper only as a chunk header (quick: one level deeper)
+				if !(tok[0] == ';' && depth <= hugeLineDepth+1) {
+					return false
+				}
 			}
 			if r.Quick() && depth > lineFullDepth && c13risky(prefix) {
 				return false // quick tier: prefixes that already needed the child are not extended with the reduced alphabet
